@@ -20,6 +20,7 @@
 
 #include <dispenso/detail/epoch_waiter.h>
 #include <dispenso/detail/math.h>
+#include <dispenso/detail/verif_hooks.h>
 #include <dispenso/platform.h>
 
 namespace dispenso {
@@ -183,7 +184,14 @@ class PoolWakeState {
   }
   // Number of threads currently sleeping across all groups.
   int32_t totalSleeping() const {
+#if defined(DISPENSO_VERIF)
+    DISPENSO_VERIF_HOOK("wake.call.total", this, 0, 0);
+    int32_t sleepingForHook = totalSleeping_.load(std::memory_order_relaxed);
+    DISPENSO_VERIF_HOOK("wake.ret.total", this, sleepingForHook, 0);
+    return sleepingForHook;
+#else
     return totalSleeping_.load(std::memory_order_relaxed);
+#endif
   }
 
   // ---- Pattern C cascade for scheduleBulkToRings ----
@@ -221,6 +229,7 @@ class PoolWakeState {
   // Wakes one target group: bumps the group's epoch and issues bumpAndWakeN
   // only if the sleepMask is non-zero. Called by cascade-host lambdas.
   void cascadeWake(int32_t targetGroup) {
+    DISPENSO_VERIF_HOOK("wake.call.cascade", this, targetGroup, 0);
     uint64_t mask =
         groupStates_[static_cast<size_t>(targetGroup)].sleepMask.load(std::memory_order_relaxed);
     auto& waiter = waiterFor(targetGroup * groupSize_);
@@ -230,6 +239,7 @@ class PoolWakeState {
       int32_t numSleepers = detail::countSetBits(mask);
       waiter.bumpAndWakeN(numSleepers, groupSize_);
     }
+    DISPENSO_VERIF_HOOK("wake.ret.cascade", this, 0, 0);
   }
 
   // Single-pass wake for scheduleBulkToRings. Bumps every affected group's
